@@ -2,8 +2,6 @@ package main
 
 import "time"
 
-func (f *Fam) c09Grid(after Op) {}
-
 var grantsCodeHybrid = []Op{{Op: "authz", Client: "A", Flow: "code"}, {Op: "authz", Client: "P", Flow: "code"}, {Op: "authz", Client: "A", Flow: "hyb-idt"}, {Op: "authz", Client: "A", Flow: "hyb-tok"}}
 
 func init() {
@@ -70,9 +68,9 @@ func init() {
 		famSearch(r, specs)
 	})
 	registerCheck("C09", "model_checking", 150*time.Second, 40*time.Minute, func(r *Run) {
-		depth := 3
+		depth := 4
 		if !r.Quick() {
-			depth = 5
+			depth = 6
 		}
 		grants := []Op{{Op: "authz", Client: "A", Flow: "code"}, {Op: "authz", Client: "A", Flow: "hyb-tok"}, {Op: "password", Client: "A"}, {Op: "device", Client: "A"}, {Op: "cc", Client: "B"}, {Op: "authz", Client: "P", Flow: "oidc"}}
 		var specs []FamSpec
